@@ -42,6 +42,24 @@ def sg_register(prog: Program) -> RuleResult:
     r = RuleResult("SG-REGISTER", "every __new__ in the Symbol cone registers the instance it returns", floor=4)
     sym = prog.cls("predicate.Symbol")
     upd = prog.func("predicate.update_cache")
+    # "however they were created": the library's own allocation sites (the DAO mapper reconstructs instances without calling __init__)
+    # must go through the class's __new__, which is where registration happens.  object.__new__(C) for a class that is only known at run
+    # time skips it.
+    raw = []
+    for f in prog.functions.values():
+        if f.name == "__new__" and f.cls is not None and prog.is_subclass(f.cls.qual, sym.qual):
+            continue  # judged below
+        for c_ in calls_in(f.node):
+            if isinstance(c_.func, ast.Attribute) and c_.func.attr == "__new__" and isinstance(c_.func.value, ast.Name) and c_.func.value.id == "object" and c_.args:
+                q = f.module.resolve(c_.args[0]) if isinstance(c_.args[0], (ast.Name, ast.Attribute)) else None
+                if q in prog.classes and not prog.is_subclass(q, sym.qual):
+                    continue  # a named class outside the Symbol cone
+                raw.append((f, c_))
+    n_alloc = sum(1 for f in prog.functions.values() for c_ in calls_in(f.node) if isinstance(c_.func, ast.Attribute) and c_.func.attr == "__new__" and not is_super_call(c_))
+    r.check(not raw, "library#no-raw-allocation", site(raw[0][0], raw[0][1]) if raw else sym.loc, src(raw[0][1]) if raw else f"{n_alloc} explicit allocation(s), all through the class's own __new__",
+            "instances the library allocates itself go through the class's __new__",
+            f"{raw[0][0].short if raw else ''} allocates with object.__new__, which skips Symbol.__new__ and with it the registration: an instance reconstructed that way "
+            "(to_dao(x).from_dao(), a row loaded from the database) never appears in the range of let(T, domain=None)")
     news = [c.methods["__new__"] for c in prog.subclasses(sym.qual) if "__new__" in c.methods]
     if not any(f.cls.qual == sym.qual for f in news):
         r.fail("Symbol.__new__#exists", sym.loc, "", "Symbol defines no allocator: instances are never registered")
